@@ -19,7 +19,7 @@ import bc
 import common
 
 MANIFEST = dict(
-    text='Theorems (props/C13.v, 18, all closed under the global context) about a hand-written Gallina model of Broadcaster.broadcast. '
+    text='Theorems (props/C13.v, 22, all closed under the global context) about a hand-written Gallina model of Broadcaster.broadcast. '
          'Join [bcast] (outer alignment on shared level names / cross product on disjoint ones, keys over obj levels ++ new parameter levels): '
          'same_index; rows_carry_restricted_value (every result row carries exactly the payload the original held for the row key restricted to the '
          "original's levels, or NaN when it has no such key -- unbounded: all level layouts, level orders, key sets); no_object_row_lost / "
@@ -28,7 +28,9 @@ MANIFEST = dict(
          'per-level tables shared by both operands, positional codes, join on codes, decode, restore): decode_encode, table_complete, recode_transparent '
          '(= the join of the operands themselves unless the coded indices coincide; proved by showing that the join commutes with every per-level recoding that is '
          'injective on the tables), impl_rows_carry_restricted_value, recode_transparent_refuted (known finding), operands_restored on every normal return, '
-         'exception_iff, operands_left_recoded_on_exception. The model (including the observed pandas align/join behaviour and its `equals` short-circuit) is tied '
+         'exception_iff, operands_left_recoded_on_exception. Dispatch of Broadcaster.broadcast in front of it [broadcast_top]: paramset_iff (only a Series with exactly one, '
+         'unnamed, level is a set of parameters), row_indexed_joined_as_is (DataFrame / several levels even if all unnamed / any named level, however the name looks: joined as '
+         'it is), object_levels_survive, paramset_on_parameter_levels. The model (including the observed pandas align/join behaviour and its `equals` short-circuit) is tied '
          'to the code by vm_compute correspondence on generated layouts on every run; the property oracle runs on the implementation on every run.',
     note=common.TB_NOTE + 'all C13 theorems are closed under the global context. Model is hand-written (pandas align/join behaviour included as '
          'observed): the correspondence harness (generator, canonicalisation of pandas objects into key/row lists, Coq literals) is trusted; '
@@ -75,7 +77,29 @@ def cls_nonstring(d):
     return any(not isinstance(k, str) for k in keys) and str(d.get('exception', '')).startswith('TypeError')
 
 
-CLASSES = {'coincident_codes': cls_coincident, 'contained_extra_key': cls_contained, 'series_nonstring_keys_array': cls_nonstring}
+def cls_int_level_name(d):
+    """An index level named by an integer; observed as NaN instead of the original's values (pandas joins a MultiIndex that has a
+    level NAMED 0 on level NUMBER 0) or IndexError 'Too many levels' (get_level_values(1) on a one-level Index named 1)."""
+    if 'prm' not in d or not isinstance(d.get('prm'), dict):
+        return False
+    O, P = _ops(d)
+    if not bc.int_level_name(O, P):
+        return False
+    exc = d.get('exception')
+    return exc is None or exc.startswith("IndexError('Too many levels")
+
+
+def cls_one_level_mi(d):
+    """The single index level of an operand is held by a one-level MultiIndex: _IndexLevelCache looks the level up by
+    `index.name`, which is None for every MultiIndex -> KeyError(None)."""
+    if 'prm' not in d or not isinstance(d.get('prm'), dict):
+        return False
+    O, P = _ops(d)
+    return bc.one_level_multiindex(O, P) and str(d.get('exception', '')).startswith('KeyError(None')
+
+
+CLASSES = {'coincident_codes': cls_coincident, 'contained_extra_key': cls_contained, 'series_nonstring_keys_array': cls_nonstring,
+           'integer_level_name': cls_int_level_name, 'one_level_multiindex': cls_one_level_mi}
 
 
 # ----------------------------------------------------------------------------------------- one frame-to-frame case
@@ -125,7 +149,7 @@ def shrink(O, P, what):
             for i in range(len(X.keys)):
                 if len(X.keys) <= 1:
                     break
-                Y = bc.Operand(X.kind, X.levels, X.keys[:i] + X.keys[i + 1:], X.cols, X.base, X.name)
+                Y = X.clone(keys=X.keys[:i] + X.keys[i + 1:])
                 cand = (Y, cur[1]) if which == 0 else (cur[0], Y)
                 if fails(*cand):
                     cur, changed = cand, True
@@ -133,7 +157,7 @@ def shrink(O, P, what):
             if changed:
                 break
             if X.kind == 'F' and len(X.cols) > 1:
-                Y = bc.Operand(X.kind, X.levels, X.keys, X.cols[:1], X.base, X.name)
+                Y = X.clone(cols=X.cols[:1])
                 cand = (Y, cur[1]) if which == 0 else (cur[0], Y)
                 if fails(*cand):
                     cur, changed = cand, True
@@ -149,10 +173,10 @@ def scalar_array_relations(res, rng, n):
     rejected = 0
     for it in range(n):
         okind = rng.choice(['S', 'F'])
-        lv = rng.choice([[None], ['a'], ['a', 'b'], [None, 'a']])
+        lv = rng.choice([[None], ['a'], ['a', 'b'], [None, 'a'], [None, None], [''], [0], ['', None]])
         keys = bc.rand_keys(rng, lv, rng.randint(1, 5))
         if okind == 'S' and rng.random() < 0.6:
-            lv = rng.choice([[None], ['a']])
+            lv = rng.choice([[None], ['a'], ['']])
             keys = [(c,) for c in rng.sample(['k_1', 'ND', 'SD', 'TN'], rng.randint(1, 4))]
         O = bc.Operand(okind, lv, keys, cols=['u', 'w'][:rng.randint(1, 2)])
         obj = O.build()
@@ -329,10 +353,18 @@ def frame_cases(res, pairs, tag):
             stats[k2] = stats.get(k2, 0) + 1
         f = c.failure()
         in_known_class = bc.coincident_codes(O, P) or bc.extra_key_of_contained(O, P)
+        int_named = bc.int_level_name(O, P)
+        if int_named:
+            k3 = 'integer level name: ' + ('property holds' if f is None else 'property FAILS (known finding integer-level-name or reported)')
+            stats[k3] = stats.get(k3, 0) + 1
+        if O.kind == 'S' and len(O.levels) > 1 and all(n is None for n in O.levels):
+            stats['Series object with several levels, all unnamed'] = stats.get('Series object with several levels, all unnamed', 0) + 1
+        if O.kind == 'S' and len(O.levels) == 1 and O.levels[0] is not None and not O.levels[0]:
+            stats['Series object with one level whose name is falsy'] = stats.get('Series object with one level whose name is falsy', 0) + 1
         if f is not None:
             what, extra = f
             if reported.get(what, 0) < 3:
-                so, sp = shrink(O, P, what) if not in_known_class else (O, P)
+                so, sp = shrink(O, P, what) if not (in_known_class or int_named or bc.one_level_multiindex(O, P)) else (O, P)
                 if report(res, so, sp, what, extra):
                     reported[what] = reported.get(what, 0) + 1
         elif not c.inq and c.ob.raised is None and not c.intact:
@@ -341,6 +373,16 @@ def frame_cases(res, pairs, tag):
         t = bc.case_term(O, P, c.ob)
         if t is None:
             stats['not expressible in the model (NaN key component / foreign row)'] = stats.get('not expressible in the model (NaN key component / foreign row)', 0) + 1
+            continue
+        if bc.one_level_multiindex(O, P):
+            k3 = 'one-level MultiIndex operand: ' + ('property holds' if f is None else 'property FAILS (known finding one-level-multiindex or reported)')
+            stats[k3] = stats.get(k3, 0) + 1
+        if (int_named or bc.one_level_multiindex(O, P)) and f is not None:
+            # the model knows level names only as names and an index only as level names + keys (pandas' name/number confusion
+            # and the Index / one-level MultiIndex distinction are not modelled): where the oracle above found the property
+            # violated on the implementation (reported / classified there) there is nothing to compare
+            k3 = 'integer level name / one-level MultiIndex: not compared with the model (property fails on the implementation)'
+            stats[k3] = stats.get(k3, 0) + 1
             continue
         if in_known_class and c.inq:
             # the model reproduces the registered defects; where the implementation no longer shows one (it satisfies
@@ -363,9 +405,14 @@ def run(res, only=None):
     res.assumptions += ['index keys are unique within an operand (the property quantifies over key sets); duplicate keys are exercised but only counted',
                         'payloads are distinct integer-valued floats, so a result row identifies the original row it carries',
                         'result level ORDER is compared with obj levels ++ new parameter levels only up to the rearrangement pandas align leaves for <= 2 levels (the property does not fix it)',
-                        'uuid4 names never collide with user level names (model: Fresh vs User constructors)']
-    res.cov['rule'] = ('layouts: equal / disjoint / prm-in-obj / obj-in-prm / overlapping level-name sets over 5 names, 1-3 levels per operand, permuted level order, '
-                       'unnamed levels, parameter-set Series; Series/DataFrame x Series/DataFrame; 1-6 rows per operand drawn from pools of 3-4 keys per level (so that positional codes coincide '
+                        'uuid4 names never collide with user level names (model: Fresh vs User constructors)',
+                        'which objects are parameter sets (keys become columns) is read from the documented rule: a Series with exactly one index level that is unnamed; '
+                        'the oracle (bc.observe) and the model (is_paramset) implement this reading independently of the implementation',
+                        'inputs on which an OPEN known finding outside the model (integer level name, one-level MultiIndex) makes the implementation fail the property are not '
+                        'compared with the model (counted in the histogram); where the implementation satisfies the property they are']
+    res.cov['rule'] = ('layouts: equal / disjoint / prm-in-obj / obj-in-prm / overlapping level-name sets over 5 names (15%: also the falsy / non-string names \'\', 0, 1 in any '
+                       'role), 1-3 levels per operand, permuted level order, unnamed levels incl. Series and DataFrames ALL of whose 2-3 levels are unnamed, parameter-set Series, '
+                       'single level held by a one-level MultiIndex (8%); Series/DataFrame x Series/DataFrame; 1-6 rows per operand drawn from pools of 3-4 keys per level (so that positional codes coincide '
                        'and key sets differ); overlapping layouts with all shared key tuples present in both (inside the quantifier) and without (outside: counted); '
                        'non-trivial = inside the quantifier, >= 2 result rows, >= 2 levels in total (counted distinct by input)')
     proofs_ok = common.standard_proof_stage(res, 'C13')
